@@ -3,6 +3,7 @@
 
 import functools
 import itertools
+import math
 import numbers
 import typing
 import warnings
@@ -1146,10 +1147,14 @@ def _reduce_unrelated_vars(op, arg, reduced_vars):
                 if v.dtype != "real"
             ],
         )
-        for add_op, mul_op in ops.DISTRIBUTIVE_OPS:
-            if add_op is op:
-                arg = mul_op(arg, multiplicity).reduce(op, reduced_vars)
-                return arg, None
+        if op in (ops.max, ops.min, ops.and_, ops.or_):
+            # idempotent: reducing over an unrelated variable changes nothing
+            return arg.reduce(op, reduced_vars), None
+        if op is ops.logaddexp:
+            return (arg + math.log(multiplicity)).reduce(op, reduced_vars), None
+        if op in ops.PRODUCT_TO_POWER:
+            power_op = ops.PRODUCT_TO_POWER[op]
+            return power_op(arg, multiplicity).reduce(op, reduced_vars), None
         raise NotImplementedError(f"Cannot reduce {op}")
     return arg, frozenset(v.name for v in reduced_vars)
 
